@@ -34,7 +34,9 @@ MOD = "props.c13sig"
 NAME_ALPHA = ranges_of_pts([ord(c) for c in "aisnfI-_1"])
 
 BODIES = ["none", "json_a", "json_b", "json_list", "form", "multipart", "octet", "multi_a", "multi_b", "multi_form"]
-RESPS = ["json_a", "json_list", "none204", "text", "bytes_stream", "sse", "primitive", "ndjson", "json_seq", "json_iterpage"]
+RESPS = ["json_a", "json_list", "none204", "text", "bytes_stream", "sse", "primitive", "ndjson", "json_seq", "json_iterpage", "json_protocol"]
+# schemas named like something every endpoints module binds itself (typing constructs, runtime classes)
+NAMED_LIKE = {"json_iterpage": "AsyncIteratorPage", "json_protocol": "Protocol"}
 SECOND = ["none", "err404", "stream206", "default_stream"]
 PTYPES = ["string", "integer", "array", "enum_ref", "date"]
 PLOCS = ["query", "header", "cookie"]
@@ -85,19 +87,24 @@ def _body(P, kind, a, b):
     return P.IRRequestBody(required=True, content=content)
 
 
-def _page(P):
-    """a plain model whose NAME contains the word the emitters look for in signatures to recognise streams"""
-    d = P.IRSchema(name="AsyncIteratorPage", type="object", properties={"n": P.IRSchema(type="integer")}, required=["n"])
-    d.generation_name = d.name
-    d.final_module_stem = "async_iterator_page"
+def _named(P, raw):
+    """a plain model whose schema NAME is `raw`; class name and module stem as the real sanitisers derive them"""
+    d = P.IRSchema(name=raw, type="object", properties={"n": P.IRSchema(type="integer")}, required=["n"])
+    d.generation_name = P.core.utils.NameSanitizer.sanitize_class_name(raw)
+    d.final_module_stem = P.core.utils.NameSanitizer.sanitize_module_name(raw)
     return d
 
 
-def _responses(P, kind, second, a, b, page=None):
+def _page(P):
+    return _named(P, "AsyncIteratorPage")
+
+
+def _responses(P, kind, second, a, b, page=None, proto=None):
     S = P.IRSchema
     R = P.IRResponse
     prim = {
         "json_iterpage": R(status_code="200", description="ok", content={"application/json": page if page is not None else a}),
+        "json_protocol": R(status_code="200", description="ok", content={"application/json": proto if proto is not None else a}),
         "json_a": R(status_code="200", description="ok", content={"application/json": a}),
         "json_list": R(status_code="200", description="ok", content={"application/json": S(type="array", items=b)}),
         "none204": R(status_code="204", description="gone", content={}),
@@ -140,6 +147,9 @@ def k_emit(P, opspecs):
     page = _page(P)
     for s in (a, b, color, page):
         schemas[s.name] = s
+    proto = _named(P, "Protocol") if any(sp["resp"] == "json_protocol" for sp in opspecs) else None
+    if proto is not None:
+        schemas[proto.name] = proto
     ops = []
     for i, sp in enumerate(opspecs):
         params = [P.IRParameter(name="id", param_in="path", required=True, schema=P.IRSchema(type="string"))]
@@ -148,7 +158,7 @@ def k_emit(P, opspecs):
         body = _body(P, sp["body"], a, b)
         ops.append(P.IROperation(operation_id=sp["opid"], method=P.HTTPMethod.POST if body else P.HTTPMethod.GET, path=("/things/{id}/%d" % i) + ("/{vid}" if sp.get("implicit") else ""),  # `vid`: a path variable that no parameter declares
                                  summary="Do it", description="Longer text.", parameters=params, request_body=body,
-                                 responses=_responses(P, sp["resp"], sp["second"], a, b, page), tags=["things"]))
+                                 responses=_responses(P, sp["resp"], sp["second"], a, b, page, proto), tags=["things"]))
 
     def ctx():
         c = rc.RenderContext(core_package_name="core", package_root_for_generated_code="/tmp/x/pkg", overall_project_root="/tmp/x", parsed_schemas=schemas)
